@@ -191,13 +191,37 @@ def show_snap(sn) -> str:
     return " ".join(f"{i}>{_on(p)}[{','.join(str(c) for c in ch)}]" for i, (p, ch) in enumerate(sn))
 
 
+def healthy(nodes) -> bool:
+    """parent walks terminate and every link end is a node -- otherwise the real code may loop forever
+    on the next call, so every history runner stops at the first unhealthy store"""
+    ids = {id(x) for x in nodes}
+    for x in nodes:
+        y, steps = x, 0
+        while y is not None and steps <= len(nodes):
+            if id(y) not in ids:
+                return False
+            y = y.parent
+            steps += 1
+        if y is not None:
+            return False
+        try:
+            if any(id(c) not in ids for c in x.children):
+                return False
+        except Exception:  # noqa: BLE001
+            return False
+    return True
+
+
 def run_trace(d):
-    """[(outcome, snapshot)] after every op, plus the live nodes"""
+    """[(outcome, snapshot)] after every op, plus the live nodes (stops at the first corrupt store)"""
     nodes = make_nodes(d)
     tr = []
     for op in d["ops"]:
         o = apply_op(nodes, op)
         tr.append((o, snap(nodes)))
+        if not healthy(nodes):
+            tr.append(("corrupt", []))
+            break
     return nodes, tr
 
 
@@ -401,6 +425,8 @@ def explore(cls, n, names, sep, universe):
                 nodes = make_nodes(d)
                 for o in d["ops"]:
                     apply_op(nodes, o)
+                if not healthy(nodes):
+                    continue
                 s2 = tuple((p, tuple(ch)) for p, ch in snap(nodes))
                 if s2 not in paths:
                     paths[s2] = paths[st] + [op]
@@ -492,6 +518,8 @@ def random_history(rng: random.Random, cls, n, names, sep, nops, fault_rate=0.25
             op = ["P", rng.choice(V), rng.choice([None] + V), fault()]
         apply_op(nodes, op)
         ops.append(op)
+        if not healthy(nodes):
+            break
     return ops
 
 
@@ -658,6 +686,8 @@ def battery(nodes, cls):
 def worker_eval(d):
     """executed inside a worker process: run the history, return the trace text and the reader battery"""
     nodes, tr = run_trace(d)
+    if tr and tr[-1][0] == "corrupt":
+        return {"trace": show_trace(tr), "battery": "corrupt"}
     return {"trace": show_trace(tr), "battery": json.dumps(battery(nodes, d["cls"]), sort_keys=True, default=str)}
 
 
@@ -679,7 +709,7 @@ def accepted_history(rng: random.Random, cls, n, names, sep, nops):
             v = rng.choice([x for x in range(n) if x != dn])
             take = rng.sample(sn[dn][1], rng.randint(2, len(sn[dn][1])))
             cand = ["C", v, take, "none"]
-        if apply_op(nodes, cand) == "ok":
+        if apply_op(nodes, cand) == "ok" and healthy(nodes):
             kept.append(cand)
         else:
             nodes = make_nodes(d)
